@@ -158,6 +158,26 @@ type candidate struct {
 	packed bool
 	file   string // packed file the program ran in
 	has    bool   // packed: the program's segment was present
+	base   Obs    // what the batch run saw under the baseline
+	got    Obs    // ... and under the configuration
+	kind   string
+}
+
+// segObs presents a packed segment as an observation: an `#X` line is the
+// error that escaped the program.
+func segObs(seg []string) Obs {
+	var o Obs
+
+	for _, l := range seg {
+		if strings.HasPrefix(l, "OUT|#X ") {
+			o.Failed = true
+			o.Err = append(o.Err, "Error: "+strings.TrimPrefix(l, "OUT|#X "))
+		} else {
+			o.Out = append(o.Out, l)
+		}
+	}
+
+	return o
 }
 
 var t0 = time.Now()
@@ -654,7 +674,12 @@ func (e *engine) runGroup(gi int, byID map[int]*Prog) []candidate {
 								sig = sigOf(seg)
 							}
 
-							found = append(found, candidate{prog: id, mode: mode, group: gi, cfg: ci, sig: sig, packed: true, file: f.path, has: has})
+							got := segObs(seg)
+							if !has {
+								got = Obs{Failed: true, Err: []string{"Error: no output from this program (the file did not run through)"}}
+							}
+
+							found = append(found, candidate{prog: id, mode: mode, group: gi, cfg: ci, sig: sig, packed: true, file: f.path, has: has, base: segObs(ref), got: got})
 						}
 					}
 				} else {
@@ -664,7 +689,7 @@ func (e *engine) runGroup(gi int, byID map[int]*Prog) []candidate {
 					if !fs.soloDone[id] {
 						// no baseline result: nothing to compare with
 					} else if !raw.Done || !o.Equal(fs.solo[id]) {
-						found = append(found, candidate{prog: id, mode: mode, group: gi, cfg: ci, sig: sigOf(o.Out, o.Err...) + fmt.Sprint(o.Failed, raw.Done)})
+						found = append(found, candidate{prog: id, mode: mode, group: gi, cfg: ci, sig: sigOf(o.Out, o.Err...) + fmt.Sprint(o.Failed, raw.Done), base: fs.solo[id], got: o})
 					}
 				}
 
@@ -844,8 +869,16 @@ func (e *engine) freshObs(cfg Config, mode string, path string) (Obs, bool) {
 	return Observe(raw, e.plan.OutOnly), raw.Done
 }
 
-// confirm re-runs every selected candidate in fresh processes of the plain
-// binary, twice for each side, and reports the ones that differ reproducibly.
+// confirm selects disagreements seen in the batch runs and re-runs them in
+// fresh processes of the plain binary, twice for each side; only the ones
+// that differ reproducibly are reported.
+//
+// Selection (all deterministic): a disagreement of a program whose same kind
+// of difference already shows under a configuration with a proper subset of
+// the active features is attributed to that smaller configuration and
+// dropped; of the configurations showing the identical result for a program
+// only the first (fewest deviations) is kept; then at most ConfirmCap
+// programs per (kind of difference, mode, feature set) are confirmed.
 func (e *engine) confirm(cands []candidate, byID map[int]*Prog) {
 	sort.Slice(cands, func(i, j int) bool {
 		a, b := cands[i], cands[j]
@@ -866,11 +899,25 @@ func (e *engine) confirm(cands []candidate, byID map[int]*Prog) {
 
 	e.r.Set("batch_disagreements", len(cands))
 
-	cands = e.soloStage(cands, byID)
+	cands = e.splitStage(cands)
 
-	// One confirmation per (program, mode, group, difference signature): the
-	// configuration with the fewest deviations. Then a cap per
-	// (form, mode, configuration).
+	cfgOf := func(c candidate) Config { return e.plan.Groups[c.group].Configs[c.cfg] }
+
+	type pk struct {
+		prog, group int
+		mode, kind  string
+		diag        string
+	}
+
+	feats := map[pk][]int{}
+
+	for i := range cands {
+		c := &cands[i]
+		c.kind = classify(c.base, c.got)
+		k := pk{c.prog, c.group, c.mode, c.kind, cfgOf(*c).Diag}
+		feats[k] = append(feats[k], cfgOf(*c).featureBits())
+	}
+
 	type pick struct {
 		c    candidate
 		also []string
@@ -879,43 +926,68 @@ func (e *engine) confirm(cands []candidate, byID map[int]*Prog) {
 	var picks []*pick
 
 	first := map[string]*pick{}
-	perForm := map[string]int{}
-	skippedCap := 0
+	perKind := map[string]int{}
+	explained, skippedCap := 0, 0
 
 	for _, c := range cands {
+		cfg := cfgOf(c)
+		mine := cfg.featureBits()
+		sub := false
+
+		for _, f := range feats[pk{c.prog, c.group, c.mode, c.kind, cfg.Diag}] {
+			if f != mine && f&mine == f {
+				sub = true
+
+				break
+			}
+		}
+
+		if sub {
+			explained++
+
+			continue
+		}
+
 		k := fmt.Sprint(c.prog, "|", c.mode, "|", c.group, "|", c.sig)
 		if p, ok := first[k]; ok {
 			if len(p.also) < 40 {
-				p.also = append(p.also, e.plan.Groups[c.group].Configs[c.cfg].Label())
+				p.also = append(p.also, cfg.Label())
 			}
 
 			continue
 		}
 
-		fk := fmt.Sprint(byID[c.prog].Form, "|", c.mode, "|", c.group, "|", c.cfg)
-		if perForm[fk] >= e.plan.ConfirmCap {
+		label := cfg.Features()
+		if cfg.Diag != "" {
+			label = cfg.Diag
+		}
+
+		ck := fmt.Sprint(c.kind, "|", c.mode, "|", c.group, "|", label)
+		if perKind[ck] >= e.plan.ConfirmCap {
 			skippedCap++
 			first[k] = &pick{c: c} // remembered, not confirmed
 
 			continue
 		}
 
-		perForm[fk]++
+		perKind[ck]++
 
 		p := &pick{c: c}
 		first[k] = p
 		picks = append(picks, p)
 	}
 
+	e.r.Set("disagreements_attributed_to_a_smaller_feature_set", explained)
 	e.r.Set("disagreements_selected_for_fresh_confirmation", len(picks))
-	e.r.Set("disagreements_not_confirmed_same_form_cap", skippedCap)
+	e.r.Set("disagreements_not_confirmed_same_kind_cap", skippedCap)
 
-	var confirmed, vanished, unstable int64
+	var confirmed, unstable int64
 
 	var (
-		mu    sync.Mutex
-		wg    sync.WaitGroup
-		found []confirmedDiff
+		mu         sync.Mutex
+		wg         sync.WaitGroup
+		found      []confirmedDiff
+		packedOnly []candidate
 	)
 
 	for _, p := range picks {
@@ -939,9 +1011,9 @@ func (e *engine) confirm(cands []candidate, byID map[int]*Prog) {
 			}
 
 			if b1.Equal(c1) {
-				progress("  not reproduced fresh: %s %s [%s] %s packed=%v", prog.Key(), p.c.mode, cfg.Label(), filepath.Base(path), p.c.packed)
+				progress("  not reproduced alone: %s %s [%s] packed=%v", prog.Key(), p.c.mode, cfg.Label(), p.c.packed)
 				mu.Lock()
-				vanished++
+				packedOnly = append(packedOnly, p.c)
 				mu.Unlock()
 
 				return
@@ -958,10 +1030,6 @@ func (e *engine) confirm(cands []candidate, byID map[int]*Prog) {
 				return
 			}
 
-			mu.Lock()
-			confirmed++
-			mu.Unlock()
-
 			w := Witness{
 				Kind: "program", Form: prog.Form, Type: prog.Typ, Variant: prog.Variant, Mode: p.c.mode,
 				Base: g.Base, Config: cfg, Source: Source([]Prog{*prog}, styleSolo),
@@ -970,6 +1038,7 @@ func (e *engine) confirm(cands []candidate, byID map[int]*Prog) {
 			}
 
 			mu.Lock()
+			confirmed++
 			found = append(found, confirmedDiff{w: w, cfg: cfg, base: g.Base, prog: prog.ID, group: p.c.group, size: len(prog.Body) + len(prog.Decls)})
 			mu.Unlock()
 		})
@@ -977,10 +1046,6 @@ func (e *engine) confirm(cands []candidate, byID map[int]*Prog) {
 
 	wg.Wait()
 
-	// A difference seen under a configuration is attributed to the smallest
-	// set of active features: when the same program, in the same mode, shows
-	// the same kind of difference under a configuration whose features are a
-	// proper subset, the larger configuration adds nothing and is only counted.
 	sort.Slice(found, func(i, j int) bool {
 		a, b := found[i], found[j]
 		if a.prog != b.prog {
@@ -994,145 +1059,169 @@ func (e *engine) confirm(cands []candidate, byID map[int]*Prog) {
 		return a.cfg.Label() < b.cfg.Label()
 	})
 
-	explained := 0
-
-	for i, d := range found {
-		redundant := false
-
-		for j, o := range found {
-			if i == j || o.prog != d.prog || o.group != d.group || o.w.Mode != d.w.Mode || d.cfg.Diag != o.cfg.Diag {
-				continue
-			}
-
-			fo, fd := o.cfg.featureBits(), d.cfg.featureBits()
-			if fo != fd && fo&fd == fo && classify(o.w.BaseObs, o.w.Obs) == classify(d.w.BaseObs, d.w.Obs) {
-				redundant = true
-
-				break
-			}
-		}
-
-		if redundant {
-			explained++
-
-			continue
-		}
-
+	for _, d := range found {
 		e.reportDiff(d.w, d.cfg, d.base, d.size)
 	}
 
-	e.r.Set("confirmed_differences_already_shown_by_a_subset_of_the_features", explained)
 	e.r.Set("disagreements_confirmed_fresh", confirmed)
-	e.r.Set("disagreements_not_reproduced_fresh", vanished)
 	e.r.Set("disagreements_unstable_or_cut", unstable)
-}
 
-type confirmedDiff struct {
-	w           Witness
-	cfg, base   Config
-	prog, group int
-	size        int
-}
+	// What did not reproduce alone: solo candidates are dropped (a leak
+	// between batch items), packed ones are confirmed with their whole file.
+	var packed []candidate
 
-// soloStage re-runs every program that disagreed inside a packed file alone
-// (still in batch processes) under the baseline and the configuration. A
-// program that also disagrees alone goes on to fresh confirmation as a solo
-// candidate; for the others the packed file itself is confirmed fresh.
-func (e *engine) soloStage(cands []candidate, byID map[int]*Prog) []candidate {
-	type gk struct {
-		group, cfg int
-		mode       string
+	dropped := 0
+
+	for _, c := range packedOnly {
+		if c.packed {
+			packed = append(packed, c)
+		} else {
+			dropped++
+		}
 	}
 
-	groups := map[gk][]candidate{}
+	sort.Slice(packed, func(i, j int) bool {
+		a, b := packed[i], packed[j]
+		if a.group != b.group {
+			return a.group < b.group
+		}
+
+		if a.cfg != b.cfg {
+			return a.cfg < b.cfg
+		}
+
+		if a.prog != b.prog {
+			return a.prog < b.prog
+		}
+
+		return a.mode < b.mode
+	})
+
+	e.r.Set("disagreements_not_reproduced_fresh", dropped)
+	e.r.Set("packed_disagreements_that_need_the_whole_file", len(packed))
+
+	e.confirmPacked(packed, byID)
+}
+
+// splitStage deals with packed files that did not run through under a
+// configuration (typically a compile error raised by one program): every
+// program of such a file is re-run alone, in batch processes, under the
+// baseline and the configuration, and the ones that differ alone replace the
+// file's candidates. A file that fails the same way under a configuration
+// with a subset of the features is looked at only there.
+func (e *engine) splitStage(cands []candidate) []candidate {
+	type fk struct {
+		group, cfg int
+		mode, file string
+	}
 
 	var (
 		out   []candidate
-		order []gk
+		order []fk
 	)
 
+	missing := map[fk][]candidate{}
+
 	for _, c := range cands {
-		if !c.packed {
+		if !c.packed || c.has {
 			out = append(out, c)
 
 			continue
 		}
 
-		k := gk{c.group, c.cfg, c.mode}
-		if _, ok := groups[k]; !ok {
+		k := fk{c.group, c.cfg, c.mode, c.file}
+		if _, ok := missing[k]; !ok {
 			order = append(order, k)
 		}
 
-		groups[k] = append(groups[k], c)
+		missing[k] = append(missing[k], c)
 	}
 
 	var (
-		mu         sync.Mutex
-		wg         sync.WaitGroup
-		packedOnly []candidate
+		mu   sync.Mutex
+		wg   sync.WaitGroup
+		kept []fk
 	)
 
 	type res struct {
 		base, got map[int]Obs
-		bd, gd    map[int]bool
+		done      map[int]bool
 	}
 
-	results := map[gk]*res{}
+	results := map[fk]*res{}
+	files, skipped := 0, 0
 
 	for _, k := range order {
+		cfg := e.plan.Groups[k.group].Configs[k.cfg]
+		dup := false
+
+		for _, o := range kept {
+			oc := e.plan.Groups[o.group].Configs[o.cfg]
+			if o.group == k.group && o.mode == k.mode && o.file == k.file && oc.Diag == cfg.Diag && oc.featureBits()&cfg.featureBits() == oc.featureBits() {
+				dup = true
+
+				break
+			}
+		}
+
+		if dup {
+			skipped++
+
+			continue
+		}
+
+		kept = append(kept, k)
+		files++
+
 		k := k
-		rs := &res{base: map[int]Obs{}, got: map[int]Obs{}, bd: map[int]bool{}, gd: map[int]bool{}}
+		rs := &res{base: map[int]Obs{}, got: map[int]Obs{}, done: map[int]bool{}}
 		results[k] = rs
 
-		var files []file
-
-		seen := map[int]bool{}
-
-		for _, c := range groups[k] {
-			if !seen[c.prog] {
-				seen[c.prog] = true
-				files = append(files, file{path: e.soloPath(c.prog), ids: []int{c.prog}})
-			}
+		var fl []file
+		for _, c := range missing[k] {
+			fl = append(fl, file{path: e.soloPath(c.prog), ids: []int{c.prog}})
 		}
 
 		g := e.plan.Groups[k.group]
 
-		e.runFiles(&wg, g.Base, k.mode, files, func(f file, raw *Raw) {
+		e.runFiles(&wg, g.Base, k.mode, fl, func(f file, raw *Raw) {
 			mu.Lock()
 			rs.base[f.ids[0]] = Observe(raw, e.plan.OutOnly)
-			rs.bd[f.ids[0]] = raw.Done
+			rs.done[f.ids[0]] = raw.Done
 			mu.Unlock()
 		})
-		e.runFiles(&wg, g.Configs[k.cfg], k.mode, files, func(f file, raw *Raw) {
+		e.runFiles(&wg, cfg, k.mode, fl, func(f file, raw *Raw) {
 			mu.Lock()
 			rs.got[f.ids[0]] = Observe(raw, e.plan.OutOnly)
-			rs.gd[f.ids[0]] = raw.Done
 			mu.Unlock()
 		})
 	}
 
 	wg.Wait()
 
-	for _, k := range order {
+	for _, k := range kept {
 		rs := results[k]
+		culprits := 0
 
-		for _, c := range groups[k] {
+		for _, c := range missing[k] {
 			b, g := rs.base[c.prog], rs.got[c.prog]
-
-			if !rs.bd[c.prog] || !rs.gd[c.prog] || !b.Equal(g) {
-				c.packed = false
+			if rs.done[c.prog] && !b.Equal(g) {
+				c.packed, c.has = false, true
+				c.base, c.got = b, g
 				c.sig = sigOf(g.Out, g.Err...) + fmt.Sprint(g.Failed)
 				out = append(out, c)
-			} else {
-				packedOnly = append(packedOnly, c)
+				culprits++
 			}
+		}
+
+		if culprits == 0 {
+			// Only the combination fails: keep the file itself as the case.
+			out = append(out, missing[k][0])
 		}
 	}
 
-	e.r.Set("packed_disagreements_that_also_show_alone", len(out))
-	e.r.Set("packed_disagreements_that_need_the_whole_file", len(packedOnly))
-
-	e.confirmPacked(packedOnly, byID)
+	e.r.Set("packed_files_that_did_not_run_through_split_into_programs", files)
+	e.r.Set("packed_file_failures_already_seen_under_fewer_features", skipped)
 
 	sort.SliceStable(out, func(i, j int) bool {
 		a, b := out[i], out[j]
@@ -1152,6 +1241,13 @@ func (e *engine) soloStage(cands []candidate, byID map[int]*Prog) []candidate {
 	})
 
 	return out
+}
+
+type confirmedDiff struct {
+	w           Witness
+	cfg, base   Config
+	prog, group int
+	size        int
 }
 
 // packedConfirmCap bounds the whole-file confirmations of one run.
